@@ -209,17 +209,22 @@ fn read_all_container_deser(bytes: &[u8]) -> &'static str {
     match Reader::new(bytes) {
         Err(_) => "err",
         Ok(r) => {
-            let mut n = 0;
+            // like `for x in iter.filter_map(Result::ok)`: pulling goes on after an error (a bounded number
+            // of times: an iterator that repeats its error for ever is an unbounded loop for such a caller)
+            let (mut n, mut errs) = (0, 0);
             for item in r.into_deser_iter::<serde::de::IgnoredAny>() {
-                if item.is_err() {
-                    return "values-then-error";
+                match item {
+                    Ok(_) => n += 1,
+                    Err(_) => errs += 1,
                 }
-                n += 1;
+                if errs > 100 {
+                    panic!("the typed container iterator keeps yielding errors: a caller that skips errors never terminates");
+                }
                 if n > 10_000 {
                     break;
                 }
             }
-            "values"
+            if errs > 0 { "values-then-error" } else { "values" }
         }
     }
 }
